@@ -18,24 +18,103 @@ theorem contains_of_ite_nil {l : List String} {q : String} (h : (if l.contains q
     exact absurd h hc
 
 mutual
-theorem node_safe_of_unsafe_nil (T : List String) :
-    ∀ n : Node, n.NoRefs → n.unsafe tbl T = some [] → n.Safe tbl T
-  | .backref _, _, _ => trivial
-  | .mk nid kind mod cls extra kids ref, hnr, h => by
-    obtain ⟨hr, hkr⟩ := hnr
+/-- the memo invariant, stated on the tree: whatever a `CachedNode` points at has itself an empty audit (it sits
+somewhere else in the tree, where the walk reached it), and so have the targets inside it -/
+def Node.RefsAudited (T : List String) : Node → Prop
+  | .backref _ => True
+  | .mk _ _ _ _ _ kids ref => ref.RefsAudited T ∧ kids.RefsAudited T
+def Kids.RefsAudited (T : List String) : Kids → Prop
+  | .nil => True
+  | .node _ _ _ n rest => n.RefsAudited T ∧ rest.RefsAudited T
+  | .raw _ _ rest => rest.RefsAudited T
+  | .absent _ rest => rest.RefsAudited T
+  | .blob _ _ rest => rest.RefsAudited T
+  | .synth _ _ _ _ _ rest => rest.RefsAudited T
+def Ref.RefsAudited (T : List String) : Ref → Prop
+  | .to n => n.unsafe tbl T = some [] ∧ n.RefsAudited T
+  | .no => True
+  | .missing => True
+end
+
+mutual
+/-- the same as a computable check (the driver evaluates it on every tree `getTree` builds) -/
+def Node.refsAuditedB (T : List String) : Node → Bool
+  | .backref _ => true
+  | .mk _ _ _ _ _ kids ref => ref.refsAuditedB T && kids.refsAuditedB T
+def Kids.refsAuditedB (T : List String) : Kids → Bool
+  | .nil => true
+  | .node _ _ _ n rest => n.refsAuditedB T && rest.refsAuditedB T
+  | .raw _ _ rest => rest.refsAuditedB T
+  | .absent _ rest => rest.refsAuditedB T
+  | .blob _ _ rest => rest.refsAuditedB T
+  | .synth _ _ _ _ _ rest => rest.refsAuditedB T
+def Ref.refsAuditedB (T : List String) : Ref → Bool
+  | .to n => (n.unsafe tbl T == some []) && n.refsAuditedB T
+  | .no => true
+  | .missing => true
+end
+
+mutual
+theorem node_refsAudited_of_B (T : List String) : ∀ n : Node, n.refsAuditedB tbl T = true → n.RefsAudited tbl T
+  | .backref _, _ => trivial
+  | .mk _ _ _ _ _ kids ref, h => by
+    simp only [Node.refsAuditedB, Bool.and_eq_true] at h
+    exact ⟨ref_refsAudited_of_B T ref h.1, kids_refsAudited_of_B T kids h.2⟩
+theorem kids_refsAudited_of_B (T : List String) : ∀ ks : Kids, ks.refsAuditedB tbl T = true → ks.RefsAudited tbl T
+  | .nil, _ => trivial
+  | .node _ _ _ n rest, h => by
+    simp only [Kids.refsAuditedB, Bool.and_eq_true] at h
+    exact ⟨node_refsAudited_of_B T n h.1, kids_refsAudited_of_B T rest h.2⟩
+  | .raw _ _ rest, h => kids_refsAudited_of_B T rest (by simpa [Kids.refsAuditedB] using h)
+  | .absent _ rest, h => kids_refsAudited_of_B T rest (by simpa [Kids.refsAuditedB] using h)
+  | .blob _ _ rest, h => kids_refsAudited_of_B T rest (by simpa [Kids.refsAuditedB] using h)
+  | .synth _ _ _ _ _ rest, h => kids_refsAudited_of_B T rest (by simpa [Kids.refsAuditedB] using h)
+theorem ref_refsAudited_of_B (T : List String) : ∀ r : Ref, r.refsAuditedB tbl T = true → r.RefsAudited tbl T
+  | .to n, h => by
+    simp only [Ref.refsAuditedB, Bool.and_eq_true, beq_iff_eq] at h
+    exact ⟨h.1, node_refsAudited_of_B T n h.2⟩
+  | .no, _ => trivial
+  | .missing, _ => trivial
+end
+
+mutual
+/-- a tree without `CachedNode` references satisfies the invariant vacuously -/
+theorem node_refsAudited_of_noRefs (T : List String) : ∀ n : Node, n.NoRefs → n.RefsAudited tbl T
+  | .backref _, _ => trivial
+  | .mk _ _ _ _ _ kids ref, h => by
+    obtain ⟨hr, hk⟩ := h
     subst hr
+    exact ⟨trivial, kids_refsAudited_of_noRefs T kids hk⟩
+theorem kids_refsAudited_of_noRefs (T : List String) : ∀ ks : Kids, ks.NoRefs → ks.RefsAudited tbl T
+  | .nil, _ => trivial
+  | .node _ _ _ n rest, h => ⟨node_refsAudited_of_noRefs T n h.1, kids_refsAudited_of_noRefs T rest h.2⟩
+  | .raw _ _ rest, h => kids_refsAudited_of_noRefs T rest h
+  | .absent _ rest, h => kids_refsAudited_of_noRefs T rest h
+  | .blob _ _ rest, h => kids_refsAudited_of_noRefs T rest h
+  | .synth _ _ _ _ _ rest, h => kids_refsAudited_of_noRefs T rest h
+end
+
+mutual
+/-- "the audit returned the empty set" gives `Safe` for the whole tree, reference targets included, as soon as the
+targets were audited where they sit -/
+theorem node_safe_of_unsafe_nil' (T : List String) :
+    ∀ n : Node, n.RefsAudited tbl T → n.unsafe tbl T = some [] → n.Safe tbl T
+  | .backref _, _, _ => trivial
+  | .mk nid kind mod cls extra kids ref, hra, h => by
+    obtain ⟨hrr, hkr⟩ := hra
+    have hrefsafe : ref.Safe tbl T := ref_safe_of_refsAudited T ref hrr
     simp only [Node.unsafe] at h
-    simp only [Node.Safe, Ref.Safe, and_true, selfOK]
+    simp only [Node.Safe, selfOK]
     cases hsc : (tbl.kind kind).selfCheck with
-    | always => simp [audited, hsc]
+    | always => simp [audited, hsc, hrefsafe]
     | unknown => simp [hsc] at h
     | fnSelf =>
       simp only [hsc] at h
-      refine ⟨contains_of_ite_nil (by simpa using h), ?_⟩
+      refine ⟨contains_of_ite_nil (by simpa using h), ?_, hrefsafe⟩
       simp [audited, hsc]
     | fnContent mp cp =>
       simp only [hsc] at h
-      refine ⟨?_, by simp [audited, hsc]⟩
+      refine ⟨?_, by simp [audited, hsc], hrefsafe⟩
       cases hf : kids.findRaw (mp.head?.getD "") with
       | none => simp [hf] at h
       | some j =>
@@ -62,13 +141,13 @@ theorem node_safe_of_unsafe_nil (T : List String) :
           | some rest =>
             simp only [hk, Option.some.injEq] at h
             obtain ⟨h1, h2⟩ := append_eq_nil' h
-            exact ⟨⟨q, rfl, contains_of_ite_nil h1⟩, fun _ => kids_safe_of_unsafe_nil T kids hkr (by rw [hk, h2])⟩
+            exact ⟨⟨q, rfl, contains_of_ite_nil h1⟩, fun _ => kids_safe_of_unsafe_nil' T kids hkr (by rw [hk, h2]), hrefsafe⟩
         · simp only [hw] at h
-          refine ⟨⟨q, rfl, contains_of_ite_nil (by simpa using h)⟩, ?_⟩
+          refine ⟨⟨q, rfl, contains_of_ite_nil (by simpa using h)⟩, ?_, hrefsafe⟩
           intro ha
           simp [audited, hw] at ha
-theorem kids_safe_of_unsafe_nil (T : List String) :
-    ∀ ks : Kids, ks.NoRefs → ks.unsafe tbl T = some [] → ks.Safe tbl T
+theorem kids_safe_of_unsafe_nil' (T : List String) :
+    ∀ ks : Kids, ks.RefsAudited tbl T → ks.unsafe tbl T = some [] → ks.Safe tbl T
   | .nil, _, _ => trivial
   | .node _ _ _ n rest, hnr, h => by
     simp only [Kids.unsafe] at h
@@ -80,14 +159,14 @@ theorem kids_safe_of_unsafe_nil (T : List String) :
       | some b =>
         simp only [hn, hr, Option.some.injEq] at h
         obtain ⟨h1, h2⟩ := append_eq_nil' h
-        exact ⟨node_safe_of_unsafe_nil T n hnr.1 (by rw [hn, h1]), kids_safe_of_unsafe_nil T rest hnr.2 (by rw [hr, h2])⟩
+        exact ⟨node_safe_of_unsafe_nil' T n hnr.1 (by rw [hn, h1]), kids_safe_of_unsafe_nil' T rest hnr.2 (by rw [hr, h2])⟩
   | .raw _ j rest, hnr, h => by
     simp only [Kids.unsafe] at h
     split at h
-    · exact kids_safe_of_unsafe_nil T rest hnr h
+    · exact kids_safe_of_unsafe_nil' T rest hnr h
     · cases h
-  | .absent _ rest, hnr, h => kids_safe_of_unsafe_nil T rest hnr (by simpa [Kids.unsafe] using h)
-  | .blob _ _ rest, hnr, h => kids_safe_of_unsafe_nil T rest hnr (by simpa [Kids.unsafe] using h)
+  | .absent _ rest, hnr, h => kids_safe_of_unsafe_nil' T rest hnr (by simpa [Kids.unsafe] using h)
+  | .blob _ _ rest, hnr, h => kids_safe_of_unsafe_nil' T rest hnr (by simpa [Kids.unsafe] using h)
   | .synth _ _ mod cls extra rest, hnr, h => by
     simp only [Kids.unsafe] at h
     cases hq : qual mod cls with
@@ -98,8 +177,17 @@ theorem kids_safe_of_unsafe_nil (T : List String) :
       | some b =>
         simp only [hq, hr, Option.some.injEq] at h
         obtain ⟨h1, h2⟩ := append_eq_nil' h
-        exact ⟨⟨q, hq, contains_of_ite_nil h1⟩, kids_safe_of_unsafe_nil T rest hnr (by rw [hr, h2])⟩
+        exact ⟨⟨q, hq, contains_of_ite_nil h1⟩, kids_safe_of_unsafe_nil' T rest hnr (by rw [hr, h2])⟩
+theorem ref_safe_of_refsAudited (T : List String) : ∀ r : Ref, r.RefsAudited tbl T → r.Safe tbl T
+  | .to n, h => node_safe_of_unsafe_nil' T n h.2 h.1
+  | .no, _ => trivial
+  | .missing, _ => trivial
 end
+
+/-- the special case used before references were covered -/
+theorem node_safe_of_unsafe_nil (T : List String) (n : Node) (hnr : n.NoRefs) (h : n.unsafe tbl T = some []) :
+    n.Safe tbl T :=
+  node_safe_of_unsafe_nil' tbl T n (node_refsAudited_of_noRefs tbl T n hnr) h
 
 /-! ## the unsafe list under `T` is the `T = None` list with the names in `T` removed -/
 
